@@ -84,6 +84,8 @@ pub trait Backend: Sized {
         ensures match range_of(range.lo(), range.hi(), self.bytes().len() as int) {
             Some((a, b)) => r matches Ok(s) && s@ == self.bytes().subrange(a, b),
             None => r is Err };
+    // backend.rs: `fn len(&self) -> usize` (trait method; the length of the data)
+    fn len(&self) -> (r: usize) ensures r == self.bytes().len();
 }
 
 pub open spec fn deref_opt(d: Option<&Decoder>) -> Option<Decoder> { match d { Some(x) => Some(*x), None => None } }
